@@ -300,6 +300,13 @@ def _method(prog, self_suffix, name, trait=None):
         if st.endswith("::" + self_suffix) or st == self_suffix:
             if trait is None or (f.rec.get("impl_of_trait") or "").endswith(trait):
                 return f
+    # not overridden for this type: the provided (default) method of a trait the type implements
+    traits = {(f.rec.get("impl_of_trait") or "").split("<")[0] for f in prog.fns if ((f.rec.get("self_ty") or "").split("<")[0].endswith("::" + self_suffix) or (f.rec.get("self_ty") or "").split("<")[0] == self_suffix) and f.rec.get("impl_of_trait")}
+    for f in prog.fns:
+        if f.body is None or f.name != name or f.rec.get("self_ty") or f.rec.get("impl_of_trait"):
+            continue
+        if any(t and f.def_path.startswith(t + "::") for t in traits) and (trait is None or f.def_path.rsplit("::", 1)[0].endswith(trait)):
+            return f
     gone = not any(p == self_suffix or p.endswith("::" + self_suffix) for p in prog.adts)
     raise AnchorMissing("%s::%s" % (self_suffix, name), absent=gone)
 
